@@ -402,7 +402,7 @@ fn oracle(c: &Case, rec: &Rec) -> R {
     with_n!(n_of(c.n_idx), run(c, rec))
 }
 
-pub fn checks() -> Vec<CheckDef> {
+fn checks_main() -> Vec<CheckDef> {
     vec![prop_check(
         "blind-sign",
         "cases = (N, key, message over edge/random scalars, one of {honest request, one wire atom of the request replaced (shift/random/zero/neighbour), C<->T swapped, challenge from another transcript, other key, atom replaced + challenge re-derived, commitment moved by delta*Y_i with the response moved together (relation kept for another commitment) or oppositely}); moved request kept => Some, value == the moved commitment, signature verifies on m+delta*e_i and not on m; oracle: honest => Some, blind-signable value == commitment atom of the request == independent Pedersen value, blind_sign+unblind verifies (library and reference pairing check) on the message and on no single-coordinate change; tampered => library verdict == independent Schnorr evaluation on the wire atoms (false by construction); non-trivial = honest with N>=2 and an edge entry, or any tampered case; distinct by (N, key, tamper label)",
@@ -411,4 +411,164 @@ pub fn checks() -> Vec<CheckDef> {
         strategy,
         oracle,
     )]
+}
+
+// ---- a blind-signable value must not be obtainable without a verifying proof --------------------
+//
+// `VerifiedBlindedMessage` has no public constructor; the only way to one is
+// `SignatureRequestProof::verify_knowledge_of_opening`. A conversion trait acquired later (Deserialize,
+// Default, From<BlindedMessage>, From<Commitment>) would be a second way. Whether the type has such a
+// trait is probed at compile time with autoref specialisation (the probe compiles either way); when
+// it has, generated bare commitments are pushed through it and blind-signed.
+
+struct Probe<T>(std::marker::PhantomData<T>);
+trait ViaDeserialize<T> {
+    fn obtain(&self, bytes: &[u8]) -> Option<Result<T, String>>;
+}
+impl<T: serde::de::DeserializeOwned> ViaDeserialize<T> for Probe<T> {
+    fn obtain(&self, bytes: &[u8]) -> Option<Result<T, String>> {
+        Some(wire::dec::<T>(bytes))
+    }
+}
+trait NoDeserialize<T> {
+    fn obtain(&self, bytes: &[u8]) -> Option<Result<T, String>>;
+}
+impl<T> NoDeserialize<T> for &Probe<T> {
+    fn obtain(&self, _bytes: &[u8]) -> Option<Result<T, String>> {
+        None
+    }
+}
+struct ProbeFrom<T, S>(std::marker::PhantomData<(T, S)>);
+trait ViaFrom<T, S> {
+    fn convert(&self, s: S) -> Option<T>;
+}
+impl<S, T: From<S>> ViaFrom<T, S> for ProbeFrom<T, S> {
+    fn convert(&self, s: S) -> Option<T> {
+        Some(T::from(s))
+    }
+}
+trait NoFrom<T, S> {
+    fn convert(&self, s: S) -> Option<T>;
+}
+impl<T, S> NoFrom<T, S> for &ProbeFrom<T, S> {
+    fn convert(&self, _s: S) -> Option<T> {
+        None
+    }
+}
+struct ProbeDefault<T>(std::marker::PhantomData<T>);
+trait ViaDefault<T> {
+    fn make(&self) -> Option<T>;
+}
+impl<T: Default> ViaDefault<T> for ProbeDefault<T> {
+    fn make(&self) -> Option<T> {
+        Some(T::default())
+    }
+}
+trait NoDefault<T> {
+    fn make(&self) -> Option<T>;
+}
+impl<T> NoDefault<T> for &ProbeDefault<T> {
+    fn make(&self) -> Option<T> {
+        None
+    }
+}
+
+#[derive(Clone, Debug, Serialize, Deserialize)]
+pub struct SurfaceCase {
+    n_idx: u8,
+    key: u8,
+    msg: Vec<ScSpec>,
+    seed: u64,
+    /// 0: bare commitment from Message::blind; 1: commitment of a request whose proof is rejected
+    /// (challenge from another transcript); 2: arbitrary group element
+    source: u8,
+}
+
+fn surface_strategy(_t: Tier) -> impl Strategy<Value = SurfaceCase> {
+    (0u8..6, 0u8..3, msg_specs(), any::<u64>(), 0u8..3).prop_map(|(n_idx, key, msg, seed, source)| SurfaceCase { n_idx, key, msg, seed, source })
+}
+
+fn surface_run<const N: usize>(c: &SurfaceCase, rec: &Rec) -> R {
+    use zkchannels_crypto::pointcheval_sanders::{BlindedMessage, VerifiedBlindedMessage};
+    use zkchannels_crypto::pedersen::Commitment;
+    let k = keys::<N>(c.key as u64);
+    let m = scalars::<N>(&c.msg);
+    let bfs = rand_scalar(c.seed ^ 0xb1);
+    let blinded: BlindedMessage = Message::new(m).blind(k.kp.public_key(), bf(&bfs));
+    let point: G1Projective = match c.source % 3 {
+        0 => G1Projective::from_atom(&wire::enc(&blinded)).expect("blinded message is one G1 element"),
+        1 => {
+            let b = SignatureRequestProofBuilder::<N>::generate_proof_commitments(&mut rng(c.seed), Message::new(m), &[None; N], k.kp.public_key());
+            let good = ChallengeBuilder::new().with(&b).finish();
+            let proof = b.generate_proof_response(good);
+            let other = super::c11::challenge_from_seed(c.seed);
+            ensure!(proof.clone_via_bytes().verify_knowledge_of_opening(k.kp.public_key(), other).is_none(), "C08/request-accepted-under-foreign-challenge", "a request proof verified under a challenge from another transcript");
+            G1Projective::from_atom(Image::must(&proof).get("commitment_proof.commitment")).unwrap_or_else(|| G1Projective::generator() * bfs)
+        }
+        _ => G1Projective::generator() * rand_nonzero_scalar(c.seed ^ 0x77),
+    };
+    let label = ["bare-blinded-message", "commitment-of-rejected-request", "arbitrary-element"][(c.source % 3) as usize];
+    rec.eval(1);
+    let mut obtained: Vec<(&str, VerifiedBlindedMessage)> = Vec::new();
+    // (a) a decoder
+    match (&Probe::<VerifiedBlindedMessage>(std::marker::PhantomData)).obtain(&point.to_atom()) {
+        None => rec.class("no-decoder(by type)"),
+        Some(Err(_)) => rec.class("decoder-refuses"),
+        Some(Ok(v)) => obtained.push(("Deserialize", v)),
+    }
+    // (b) conversions
+    match (&ProbeFrom::<VerifiedBlindedMessage, BlindedMessage>(std::marker::PhantomData)).convert(blinded) {
+        None => rec.class("no-From<BlindedMessage>(by type)"),
+        Some(v) => obtained.push(("From<BlindedMessage>", v)),
+    }
+    match (&ProbeFrom::<VerifiedBlindedMessage, Commitment<G1Projective>>(std::marker::PhantomData)).convert(commitment_from(&point)) {
+        None => rec.class("no-From<Commitment>(by type)"),
+        Some(v) => obtained.push(("From<Commitment>", v)),
+    }
+    match (&ProbeDefault::<VerifiedBlindedMessage>(std::marker::PhantomData)).make() {
+        None => rec.class("no-Default(by type)"),
+        Some(v) => obtained.push(("Default", v)),
+    }
+    rec.nontrivial((N, c.key, label, c.seed));
+    rec.class(&format!("source/{}", label));
+    if let Some((how, v)) = obtained.into_iter().next() {
+        // confirm the consequence for the bare blinded message: the signer's blind signature unblinds to
+        // a valid signature although no proof was ever verified
+        let bs = v.blind_sign(&k.kp, &mut rng(c.seed ^ 0x5));
+        let sig = bs.unblind(bf(&bfs));
+        let valid = sig.verify(k.kp.public_key(), &Message::new(m));
+        return Err(Fail::new(
+            format!("C08/blind-signable-without-proof/{}", how),
+            format!("a VerifiedBlindedMessage was obtained through {} from a {} (no signature-request proof verified); blind-signing it and unblinding gives a signature that verifies on the requester's message: {}", how, label, valid),
+        )
+        .obs("Some(blind-signable value)", "no way to a blind-signable value except a verifying request proof"));
+    }
+    rec.sample(label, || json!({"N": N, "source": label, "obtained": false}));
+    Ok(())
+}
+
+trait CloneViaBytes: Sized {
+    fn clone_via_bytes(&self) -> Self;
+}
+impl<const N: usize> CloneViaBytes for SignatureRequestProof<N> {
+    fn clone_via_bytes(&self) -> Self {
+        wire::dec(&wire::enc(self)).expect("round trip of an honest request proof")
+    }
+}
+
+fn surface_oracle(c: &SurfaceCase, rec: &Rec) -> R {
+    with_n!(n_of(c.n_idx), surface_run(c, rec))
+}
+
+pub fn checks() -> Vec<CheckDef> {
+    let mut v = checks_main();
+    v.push(prop_check(
+        "no-proofless-blind-signable",
+        "generated (N, key, message, blinding factor, source in {bare commitment from Message::blind, commitment of a request whose proof is rejected, arbitrary G1 element}); every way other than a verifying request proof by which the type system would hand out a VerifiedBlindedMessage (Deserialize, From<BlindedMessage>, From<Commitment<G1>>, Default - presence probed at compile time by autoref specialisation, the probe compiles either way) is exercised with that element; oracle: none yields a value (absent by type, or refuses); if one does, the consequence is confirmed by blind_sign + unblind + verify; non-trivial = every case; distinct by (N, key, source, seed)",
+        &["source/bare-blinded-message", "source/commitment-of-rejected-request"],
+        (300, 20_000),
+        surface_strategy,
+        surface_oracle,
+    ));
+    v
 }
